@@ -149,12 +149,13 @@ def c13(tier):
     return obs
 
 def c14(tier):
+    pre = [Ob('probe_ascii_case_holds', strlen=L, unwind=L + 4, note='std model self-test: to_ascii_uppercase/lowercase, all strings of %d bytes' % L) for L in (0, 2, 4)]
     lens = [0, 5, 19, 20, 21, 25, 26, 30, 35, 42] if tier != 'thorough' else list(range(0, 46))
     obs = []
     for L in lens:
         obs.append(Ob('c14_parse_rfc3339_total_holds', strlen=L, note='all strings of byte length %d' % L))
         obs.append(Ob('c14_datetime_from_str_total_holds', strlen=L, note='all strings of byte length %d' % L))
-    return obs
+    return pre + obs
 
 def c17(tier):
     from engine_m import cronloop
